@@ -21,6 +21,7 @@ from ..seams import REGEX, VCLOCK, ENTROPY
 from ..world import real_eval
 
 ID = 'C05'
+NEEDS_BUILTIN_WRAPPERS = True      # reads what the builtin monitor records (hooks / effect log)
 LEVEL = 'other'
 TIERS = {'quick': 3000, 'thorough': 120000}
 WALL_CAP = 180
